@@ -360,7 +360,8 @@ Section Nonint.
     { destruct H as (K & V & _ & X & _). auto. }
     destruct Hf as (Hk & Hx & Hv). rewrite Hk, Hx, Hv.
     set (x := knobs_to_x E1 cf (knobs s1)).
-    match goal with |- resR _ (bind (jac_step E1 cf fuel _ ?a) _) (bind (jac_step E2 cf fuel _ ?c) _) =>
+    match goal with |- resR _ (match jac_step E1 cf fuel _ ?a with Ok _ => _ | Err _ _ => _ | Div => _ end)
+                              (match jac_step E2 cf fuel _ ?c with Ok _ => _ | Err _ _ => _ | Div => _ end) =>
       set (a0 := a); set (c0 := c) end.
     assert (H0 : stR a0 c0 /\ offS a0).
     { unfold a0, c0. destruct Ho as [O1 O2]. destruct (sx s1) as [x'|]; [destruct (allclose_masked E1 (va s1) x x')|];
@@ -369,8 +370,11 @@ Section Nonint.
     pose proof (jac_step_spec E1 cf fuel (this_broyden b i) a0) as P.
     pose proof (jac_step_R fuel (this_broyden b i) a0 c0 H0 (proj1 O0)) as R.
     destruct (jac_step E1 cf fuel (this_broyden b i) a0) as [u1|e1 u1|],
-             (jac_step E2 cf fuel (this_broyden b i) c0) as [u2|e2 u2|]; cbn in R, P; try tauto; [|cbn; exact R].
-    cbn [bind]. normE. destruct R as (U & Tu). destruct P as ((_ & _ & Lu & _) & _).
+             (jac_step E2 cf fuel (this_broyden b i) c0) as [u2|e2 u2|]; cbn in R, P; try tauto.
+    2:{ destruct R as [-> R]. cbn. split; auto.
+        change (restore_x E1 cf u1) with (skx E1 cf u1). change (restore_x E2 cf u2) with (skx E2 cf u2).
+        exact (proj1 (skx_R' u1 u2 R)). }
+    normE. destruct R as (U & Tu). destruct P as ((_ & _ & Lu & _) & _).
     destruct (log_step_R u1 u2 U) as (W & Tw & (r & Lw & Rr)).
     assert (Ow : offS (log_step E1 cf u1)).
     { destruct O0 as [Oa Or]. normE. unfold off in *. split; [rewrite Tw, Tu; exact Oa|]. unfold rows_off in *. rewrite Lw, Lu.
